@@ -494,7 +494,7 @@ class C11(_AppSpec):
         return {"kernel": "pragma line p in {1,3} (quick) / {1,2,3,7}; failure line 1..14 symbolic; count = 1-2 symbolic ASCII digits; id, alias, unknown id", "pipeline": "%d documents, pragma inserted at every line boundary, 5 pragma texts, one symbolic cell" % (3 if tier == "quick" else len(_C11_DOCS)), "rules": "all 46 enabled"}
 
 
-_C08_POOL = [">  a `b\n> c\n> d` e\n", "#  a\n\n*  b\n+ c  \n", "a\tb  \n\n\n1. c\n1. d\n", "```\nc\n```\n\n    d\n", "# a\n### b ##\n*x* y\n", "# a\n### b ##\n*x* `y ` [z]( /u )\n", "> a\n>  b\n\n***\n---\n", "1. a\n   - b\n\n     c\n"]
+_C08_POOL = [">  a `b\n> c\n> d` e\n", "- a `b\n  c` d\n\n  e\n-   f\n    g\n", "#  a\n\n*  b\n+ c  \n", "a\tb  \n\n\n1. c\n1. d\n", "```\nc\n```\n\n    d\n", "# a\n### b ##\n*x* y\n", "# a\n### b ##\n*x* `y ` [z]( /u )\n", "> a\n>  b\n\n***\n---\n", "1. a\n   - b\n\n     c\n"]
 
 
 class C08(_AppSpec):
